@@ -98,9 +98,18 @@ func settle(t interface {
 	if v.err == nil {
 		return
 	}
-	if v.finding != "" && r.KnownFinding(v.finding, func() any { return c }) {
-		r.Class("attributed:" + v.finding)
-		return
+	if len(v.findings) > 0 {
+		listed := true
+		for _, id := range v.findings {
+			listed = listed && r.IsOpen(id)
+		}
+		if listed {
+			for _, id := range v.findings {
+				r.KnownFinding(id, func() any { return c })
+				r.Class("attributed:" + id)
+			}
+			return
+		}
 	}
 	t.Fatalf("%s", r.Fail(c, "%s: %v", c.Route, v.err))
 }
@@ -134,7 +143,7 @@ type witness struct {
 	name   string
 	doc    string
 	excl   []string
-	jsonp  bool   // exclusions in '$.request.body…' notation (judged as the request body)
+	jsonp  bool   // exclusions in '$.request.body…' notation: run as the request body of the HAR collector
 	reveal string // text that must not / must appear in the output
 }
 
@@ -142,14 +151,20 @@ func runWitness(t *testing.T, id string, ws []witness, present func(w witness, o
 	r := ev.New(t, "C16")
 	for _, w := range ws {
 		r.Case()
-		passed := w.excl
+		var out string
+		var err error
 		if w.jsonp {
-			passed = passedByCollector(w.excl, reqPrefix)
+			// through the real HAR collector: the translation of the '$' notation is its business
+			setupCollector(t)
+			var sides harSides
+			sides, err = collectorObfuscate(w.doc, `{"unrelated":1}`, w.excl)
+			out = sides.req
+		} else {
+			out, err = md5Obfuscator.ObfuscateJSON(w.doc, w.excl)
 		}
-		out, err := md5Obfuscator.ObfuscateJSON(w.doc, passed)
 		c := bodyCase{Route: "witness " + w.name, Doc: w.doc, Exclusions: w.excl, Output: out}
 		if err != nil {
-			t.Fatalf("%s", r.Fail(c, "ObfuscateJSON: %v", err))
+			t.Fatalf("%s", r.Fail(c, "obfuscation failed: %v", err))
 		}
 		if !present(w, out) {
 			r.Class("defect-absent")
@@ -171,6 +186,15 @@ func TestWitnessSuffixExclusion(t *testing.T) {
 		{name: "array items: '.items[]' exposes a top-level array's items", doc: `["top-secret"]`, excl: []string{".items[]"}, reveal: "top-secret"},
 	}
 	runWitness(t, "C16-F1", ws, func(w witness, out string) bool { return strings.Contains(out, w.reveal) })
+}
+
+// C16-F3: a key with a control character makes the output invalid JSON.
+func TestWitnessControlCharacterInKey(t *testing.T) {
+	ws := []witness{
+		{name: "key with U+0001: output is not JSON", doc: `{"a\u0001":"x"}`},
+		{name: "key with a quote and DEL: output is not JSON", doc: `{"a\"\u007f":{"b":[1]}}`},
+	}
+	runWitness(t, "C16-F3", ws, func(w witness, out string) bool { _, err := parseDoc(out); return err != nil })
 }
 
 // C16-F2: excluding the whole body in '$.request.body' notation keeps nothing.
